@@ -440,6 +440,30 @@ Ltac mnorm :=
        w_gates w_bag w_pout w_exc w_canceled w_compl w_gnext w_done w_result add_log];
   repeat rewrite ?bagw_app, ?gatesw_upd_res, ?gatesw_upd_out, ?logw_cons, ?stackw_cons.
 
+(* the scalar fields are untouched by the stranding of the queues *)
+Lemma strand_q_scalars t j q s :
+  pout (strand_q t j q s) = pout s /\ exc (strand_q t j q s) = exc s /\ canceled (strand_q t j q s) = canceled s /\
+  compl (strand_q t j q s) = compl s /\ gnext (strand_q t j q s) = gnext s /\ done (strand_q t j q s) = done s /\
+  result (strand_q t j q s) = result s.
+Proof. revert s; induction q as [|[p it] q IH]; intros s; cbn; [repeat split|]. destruct (IH (add_log s (ev t 11 (Z.of_nat j) it))) as (A & B & C & D & E & F & G). repeat split; assumption. Qed.
+Lemma strand_gates_scalars t j gs s :
+  pout (strand_gates t j gs s) = pout s /\ exc (strand_gates t j gs s) = exc s /\ canceled (strand_gates t j gs s) = canceled s /\
+  compl (strand_gates t j gs s) = compl s /\ gnext (strand_gates t j gs s) = gnext s /\ done (strand_gates t j gs s) = done s /\
+  result (strand_gates t j gs s) = result s.
+Proof.
+  revert j s; induction gs as [|g r IH]; intros j s; cbn; [repeat split|].
+  destruct (IH (S j) (strand_q t j (g_q g) s)) as (A & B & C & D & E & F & G).
+  destruct (strand_q_scalars t j (g_q g) s) as (A' & B' & C' & D' & E' & F' & G').
+  repeat split; congruence.
+Qed.
+Lemma strand_gates_pout t j gs s : pout (strand_gates t j gs s) = pout s. Proof. apply strand_gates_scalars. Qed.
+Lemma strand_gates_exc t j gs s : exc (strand_gates t j gs s) = exc s. Proof. apply strand_gates_scalars. Qed.
+Lemma strand_gates_canceled t j gs s : canceled (strand_gates t j gs s) = canceled s. Proof. apply strand_gates_scalars. Qed.
+Lemma strand_gates_compl t j gs s : compl (strand_gates t j gs s) = compl s. Proof. apply strand_gates_scalars. Qed.
+Lemma strand_gates_gnext t j gs s : gnext (strand_gates t j gs s) = gnext s. Proof. apply strand_gates_scalars. Qed.
+Lemma strand_gates_done t j gs s : done (strand_gates t j gs s) = done s. Proof. apply strand_gates_scalars. Qed.
+Lemma strand_gates_result t j gs s : result (strand_gates t j gs s) = result s. Proof. apply strand_gates_scalars. Qed.
+
 (* ---------- well-formedness: stage indices in range, unlimited tasks only at unlimited stages ---------- *)
 Definition wf_task (c : cfg) (tk : ptask) : Prop :=
   match tk with TGen => True | TL j _ => (j < nstages c)%nat | TU j _ => (j < nstages c)%nat /\ unlimited c j = true end.
@@ -546,30 +570,6 @@ Proof.
   intros H0 R. apply (reach_inv (mstep c) (WF c) (init c)); [apply WF_init | | exact R].
   intros s1 t ch s1' ch' site I E. eapply WF_mstep; eauto.
 Qed.
-
-(* the scalar fields are untouched by the stranding of the queues *)
-Lemma strand_q_scalars t j q s :
-  pout (strand_q t j q s) = pout s /\ exc (strand_q t j q s) = exc s /\ canceled (strand_q t j q s) = canceled s /\
-  compl (strand_q t j q s) = compl s /\ gnext (strand_q t j q s) = gnext s /\ done (strand_q t j q s) = done s /\
-  result (strand_q t j q s) = result s.
-Proof. revert s; induction q as [|[p it] q IH]; intros s; cbn; [repeat split|]. destruct (IH (add_log s (ev t 11 (Z.of_nat j) it))) as (A & B & C & D & E & F & G). repeat split; assumption. Qed.
-Lemma strand_gates_scalars t j gs s :
-  pout (strand_gates t j gs s) = pout s /\ exc (strand_gates t j gs s) = exc s /\ canceled (strand_gates t j gs s) = canceled s /\
-  compl (strand_gates t j gs s) = compl s /\ gnext (strand_gates t j gs s) = gnext s /\ done (strand_gates t j gs s) = done s /\
-  result (strand_gates t j gs s) = result s.
-Proof.
-  revert j s; induction gs as [|g r IH]; intros j s; cbn; [repeat split|].
-  destruct (IH (S j) (strand_q t j (g_q g) s)) as (A & B & C & D & E & F & G).
-  destruct (strand_q_scalars t j (g_q g) s) as (A' & B' & C' & D' & E' & F' & G').
-  repeat split; congruence.
-Qed.
-Lemma strand_gates_pout t j gs s : pout (strand_gates t j gs s) = pout s. Proof. apply strand_gates_scalars. Qed.
-Lemma strand_gates_exc t j gs s : exc (strand_gates t j gs s) = exc s. Proof. apply strand_gates_scalars. Qed.
-Lemma strand_gates_canceled t j gs s : canceled (strand_gates t j gs s) = canceled s. Proof. apply strand_gates_scalars. Qed.
-Lemma strand_gates_compl t j gs s : compl (strand_gates t j gs s) = compl s. Proof. apply strand_gates_scalars. Qed.
-Lemma strand_gates_gnext t j gs s : gnext (strand_gates t j gs s) = gnext s. Proof. apply strand_gates_scalars. Qed.
-Lemma strand_gates_done t j gs s : done (strand_gates t j gs s) = done s. Proof. apply strand_gates_scalars. Qed.
-Lemma strand_gates_result t j gs s : result (strand_gates t j gs s) = result s. Proof. apply strand_gates_scalars. Qed.
 
 (* ---------- accounting toolkit ---------- *)
 Definition bz (b : bool) : Z := if b then 1 else 0.
